@@ -287,7 +287,13 @@ func Build(r *vf.Rand, k Kind, o Opts) (*Built, error) {
 		b.BinaryDump = r.Bool()
 		switch {
 		case b.BinaryDump:
-			opts = append(opts, packetdump.RTPBinaryFormatter(BinRTP), packetdump.RTCPBinaryFormatter(BinRTCP))
+			rtpFmt := packetdump.RTPBinaryFormatCallback(BinRTP)
+			if r.Chance(0.4) {
+				// a formatter that returns a view of the packet it was given (cheap and allowed:
+				// the packet handed to a formatter is the dumper's own copy)
+				rtpFmt = func(p *rtp.Packet, _ interceptor.Attributes) ([]byte, error) { return p.Payload, nil }
+			}
+			opts = append(opts, packetdump.RTPBinaryFormatter(rtpFmt), packetdump.RTCPBinaryFormatter(BinRTCP))
 		case o.CaptureDumps:
 			// captured dumps are compared between runs: the default RTCP text prints addresses,
 			// the default RTP text (header fields and payload length) is deterministic
